@@ -210,7 +210,12 @@ Mutate(e) ==
   IF void \/ IsNull(g) THEN Voided
   ELSE IF ~indom THEN
      \* outside the domain: nothing more is judged in this trace, except that the three overruns C07 names must panic
-     [Voided EXCEPT !.fails = fails \cup (IF Overrun(e, g) /\ ~e.panic THEN {F(e, "C07", "a limit overrun completed instead of panicking")} ELSE {})]
+     \* ... and that EVERY id next_id() returns is fresh (C05 speaks of every id returned, not of calls with ids to spare:
+     \* an allocator that the model holds to be exhausted may panic, or find an id the model did not - but not a used one)
+     [Voided EXCEPT !.fails = fails \cup (IF Overrun(e, g) /\ ~e.panic THEN {F(e, "C07", "a limit overrun completed instead of panicking")} ELSE {})
+                                     \cup (IF e.op = "next_id" /\ ~e.panic /\ ~div
+                                              /\ ~(e.ret \in IdsOf(g) /\ e.ret \notin g.present /\ e.ret \notin issued[h])
+                                           THEN {F(e, "C05", "next_id() on an exhausted allocator returned a present, repeated or out-of-range id")} ELSE {})]
   ELSE
   LET g2 == Post(e, g)
       \* ---- C01 on the observed alive set
